@@ -26,7 +26,7 @@ from harness import common
 
 GEN_MODULES = ['params']
 MODEL_TARGETS = ['model/M_Params.vo']
-PROOF_TARGETS = ['proofs/P_Params.vo', 'proofs/P_ParamsViews.vo', 'proofs/P_ParamsWorld.vo', 'proofs/P_ParamsMap.vo', 'proofs/P_ParamsRec.vo', 'proofs/P_ParamsArgs.vo', 'proofs/P_ParamsRefine.vo', 'proofs/P_ParamsE2E.vo']
+PROOF_TARGETS = ['proofs/P_Params.vo', 'proofs/P_ParamsViews.vo', 'proofs/P_ParamsWorld.vo', 'proofs/P_ParamsMap.vo', 'proofs/P_ParamsRec.vo', 'proofs/P_ParamsArgs.vo', 'proofs/P_ParamsRefine.vo', 'proofs/P_ParamsE2E.vo', 'proofs/P_ParamsX.vo']
 LEVEL = 'proof'
 RULE = ('operation sequences over {ParameterSet(), add_param front/back, map_param to model subsets with None / str / '
         'sequence aliases (incl. duplicate aliases, duplicate global names, wrong-length alias sequences, foreign and '
@@ -43,8 +43,8 @@ TRUSTED = [
     'hand model M_Params.v of the control flow, numpy array plumbing (boolean indexing, concatenate, hstack, '
     'np.where broadcasting, np.unique, cumsum, argwhere), Python dict / list semantics and object identity '
     '(store of Parameter objects), validated on every run by this correspondence',
-    'names and values modelled as integers (names: equality and order only; values: small integers, exact in float64); '
-    'NaN / inf values and non-numeric arguments are outside the model',
+    'names and values modelled as integers (names: equality and order only; values: the code sees k/8 — non-integers, '
+    '0, -0.0, (2^27+1)/8 — exact in float64); NaN / inf and non-numeric arguments are outside the model (NaN: probes only)',
     'deepcopy modelled as: fresh Parameter objects in order, caches copied literally',
     'the independent reference table of the predicate (harness/c04.py: class Ref)',
 ]
